@@ -65,7 +65,7 @@ def main(argv=None):
     ap.add_argument("--no-evidence", action="store_true")
     ap.add_argument("--replay-dir", default=None, help="where replay files go (default /verif/replays/<id>)")
     ap.add_argument("--budget", type=float, default=None,
-                    help="wall seconds for the exploration (default: harness BUDGET[tier], else 110 quick / 1500 thorough)")
+                    help="wall seconds for the exploration (default: harness BUDGET[tier], else 110 quick / 1200 thorough)")
     a = ap.parse_args(argv)
     pid = a.pid.upper()
     seed = int(os.environ.get("VERIF_SEED", "0") or 0)
@@ -121,7 +121,7 @@ def main(argv=None):
                   f"{'FATAL' if r.get('fatal') else ''}", flush=True)
 
     budget = a.budget or float(os.environ.get("VERIF_BUDGET_S", 0) or 0) or \
-        getattr(hmod, "BUDGET", {}).get(a.tier) or (110.0 if a.tier == "quick" else 1500.0)
+        getattr(hmod, "BUDGET", {}).get(a.tier) or (110.0 if a.tier == "quick" else 1200.0)
     slice_s = 25.0 if a.tier == "quick" else 120.0
     # long jobs first: the pool is FIFO and the tail is what work sharing has to spread
     order = sorted(range(len(jobs)), key=lambda i: -float(jobs[i].get("weight", 0)))
@@ -342,6 +342,11 @@ def main(argv=None):
         os.makedirs(os.path.join(ROOT, "evidence"), exist_ok=True)
         with open(os.path.join(ROOT, "evidence", f"{pid}.json"), "w") as f:
             json.dump(ev, f, indent=1, default=str)
+        if a.tier == "thorough":
+            # the quick run of the next change overwrites <id>.json: keep the last thorough record too
+            os.makedirs(os.path.join(ROOT, "evidence", "thorough"), exist_ok=True)
+            with open(os.path.join(ROOT, "evidence", "thorough", f"{pid}.json"), "w") as f:
+                json.dump(ev, f, indent=1, default=str)
     print(f"property={pid} tier={a.tier} jobs={len(main_res)} paths={agg['paths']} queries={agg['checks']} "
           f"obligations={agg['obligations'] + n_lem} discharged={agg['discharged'] + n_lem_ok} "
           f"solver_s={agg['solver_s']} wall_s={wall:.1f} exhaustive={ev['coverage']['exhaustive']} "
